@@ -527,3 +527,128 @@ Proof.
     + destruct f as [|[|[|f]]]; simpl in Hr; try discriminate.
       inversion Hr; subst. unfold obs in Ho. simpl in Ho. discriminate.
 Qed.
+
+(* ============================================================================================== *)
+(* Part U : moving `C.a = v` into the class body                                                   *)
+(* ============================================================================================== *)
+Definition dom_in (N : ns) (bound : list name) : Prop :=
+  forall x, ns_get N x <> None -> nmem x bound = true.
+
+Lemma ns_get_set N a v x : ns_get (ns_set N a v) x = if Nat.eqb x a then Some v else ns_get N x.
+Proof.
+  induction N as [|[y w] N IH]; simpl.
+  - destruct (Nat.eqb x a); reflexivity.
+  - destruct (Nat.eqb a y) eqn:E; simpl.
+    + apply Nat.eqb_eq in E. subst y. destruct (Nat.eqb x a); reflexivity.
+    + destruct (Nat.eqb x y) eqn:E2; simpl.
+      * apply Nat.eqb_eq in E2. subst y. rewrite Nat.eqb_sym, E. reflexivity.
+      * exact IH.
+Qed.
+
+Lemma dom_in_set N bound a v : dom_in N bound -> dom_in (ns_set N a v) (a :: bound).
+Proof.
+  intros H x Hx. rewrite ns_get_set in Hx. unfold nmem. simpl.
+  destruct (Nat.eqb x a) eqn:E; [reflexivity|]. simpl. apply H. exact Hx.
+Qed.
+
+Lemma veval_scopes G N bound e tr :
+  dom_in N bound -> v_reads_class e = false -> existsb (fun x => nmem x bound) (v_names e) = false ->
+  veval (fun x => match ns_get N x with Some v => Some v | None => ns_get G x end) (fun _ => None) e tr
+  = veval (ns_get G) (ns_get N) e tr.
+Proof.
+  intros HD. revert tr. induction e as [k|x|a|k e IH]; intros tr Hc Hn; simpl in *; try reflexivity.
+  - rewrite orb_false_r in Hn. destruct (ns_get N x) eqn:E; [|reflexivity].
+    assert (nmem x bound = true) by (apply HD; congruence). congruence.
+  - discriminate.
+  - rewrite (IH tr Hc Hn). reflexivity.
+Qed.
+
+Lemma fu_split_app : forall post bound mv st, fu_split bound post = (mv, st) -> post = mv ++ st.
+Proof.
+  induction post as [|[a e] tl IH]; intros bound mv st H; simpl in H.
+  - inversion H; reflexivity.
+  - destruct (u_mangled a || v_reads_class e || existsb (fun x => nmem x bound) (v_names e)).
+    + inversion H; reflexivity.
+    + destruct (fu_split (a :: bound) tl) as [mv' st'] eqn:E. inversion H; subst.
+      simpl. f_equal. eapply IH; eauto.
+Qed.
+
+Lemma moved_same G : forall post bound mv st N tr,
+  fu_split bound post = (mv, st) -> dom_in N bound -> ubody G N mv tr = upost G N mv tr.
+Proof.
+  induction post as [|[a e] tl IH]; intros bound mv st N tr H HD; simpl in H.
+  - inversion H; reflexivity.
+  - destruct (u_mangled a || v_reads_class e || existsb (fun x => nmem x bound) (v_names e)) eqn:Eg.
+    + inversion H; reflexivity.
+    + destruct (fu_split (a :: bound) tl) as [mv' st'] eqn:E. inversion H; subst. simpl.
+      apply orb_false_iff in Eg. destruct Eg as [Eg Eg3]. apply orb_false_iff in Eg. destruct Eg as [_ Eg2].
+      rewrite (veval_scopes G N bound e tr HD Eg2 Eg3).
+      destruct (veval (ns_get G) (ns_get N) e tr) as [[v|] tr']; [|reflexivity].
+      eapply IH; [exact E|]. apply dom_in_set. exact HD.
+Qed.
+
+Lemma ubody_app G : forall b1 b2 N tr,
+  ubody G N (b1 ++ b2) tr = match ubody G N b1 tr with (Some N1, tr1) => ubody G N1 b2 tr1 | r => r end.
+Proof.
+  induction b1 as [|[a e] tl IH]; intros; simpl; [reflexivity|].
+  destruct (veval _ _ e tr) as [[v|] tr']; [apply IH|reflexivity].
+Qed.
+Lemma upost_app G : forall b1 b2 N tr,
+  upost G N (b1 ++ b2) tr = match upost G N b1 tr with (Some N1, tr1) => upost G N1 b2 tr1 | r => r end.
+Proof.
+  induction b1 as [|[a e] tl IH]; intros; simpl; [reflexivity|].
+  destruct (veval _ _ e tr) as [[v|] tr']; [apply IH|reflexivity].
+Qed.
+
+Lemma ubody_dom G : forall b N tr N' tr',
+  ubody G N b tr = (Some N', tr') ->
+  forall x, ns_get N' x <> None -> nmem x (map fst b) = true \/ ns_get N x <> None.
+Proof.
+  induction b as [|[a e] tl IH]; intros N tr N' tr' H x Hx; simpl in *.
+  - inversion H; subst. right. exact Hx.
+  - destruct (veval _ _ e tr) as [[v|] tr1]; [|discriminate].
+    destruct (IH _ _ _ _ H x Hx) as [Hl|Hr].
+    + left. unfold nmem in *. simpl. rewrite Hl. apply orb_true_r.
+    + rewrite ns_get_set in Hr. unfold nmem. simpl.
+      destruct (Nat.eqb x a); [left; reflexivity|right; exact Hr].
+Qed.
+
+(* T02k_unconventional_sound: for a class that nothing observes while it is created, the rule's
+   output runs like the input: same outcome, same log, same attributes of the class. *)
+Theorem unconventional_sound p : u_hook p = false -> urun (fu_model p) = urun p.
+Proof.
+  intros Hh. unfold fu_model, urun.
+  destruct (fu_split (map fst (u_body p)) (u_post p)) as [mv st] eqn:Es. simpl. rewrite Hh.
+  rewrite ubody_app.
+  destruct (ubody (u_globals p) [] (u_body p) []) as [[N|] tr] eqn:Eb; [|reflexivity].
+  assert (HD : dom_in N (map fst (u_body p))).
+  { intros x Hx. destruct (ubody_dom _ _ _ _ _ _ Eb x Hx) as [H|H]; [exact H|]. simpl in H. congruence. }
+  rewrite (fu_split_app _ _ _ _ Es), upost_app.
+  rewrite (moved_same (u_globals p) _ _ _ _ N tr Es HD).
+  destruct (upost (u_globals p) N mv tr) as [[N1|] tr1] eqn:Em; reflexivity.
+Qed.
+
+(* a class decorator, a metaclass or __init_subclass__ of a base sees the class when it is created:
+   with the attribute after the rewrite, without it before *)
+Theorem unconventional_hook_refuted :
+  exists p, u_hook p = true /\ urun (fu_model p) <> urun p.
+Proof.
+  exists (mkU [] true [(1, VConst 1)] [(2, VConst 2)] []). split; [reflexivity|].
+  vm_compute. discriminate.
+Qed.
+
+(* without the guards the rewrite is wrong: `C.b = a` where the class body binds a;
+   `C.b = C.a` (the class does not exist yet inside its body) *)
+Definition fu_unguarded (p : uprog) : uprog := mkU (u_globals p) (u_hook p) (u_body p ++ u_post p) [] (u_rest p).
+Theorem unconventional_unguarded_refuted :
+  (exists p, u_hook p = false /\ urun (fu_unguarded p) <> urun p /\ fst (fst (urun p)) = true
+             /\ exists a x, u_post p = [(a, VName x)])
+  /\ (exists p, u_hook p = false /\ urun (fu_unguarded p) <> urun p /\ fst (fst (urun p)) = true
+                /\ exists a b, u_post p = [(a, VAttr b)]).
+Proof.
+  split.
+  - exists (mkU [(1, UInt 5)] false [(1, VConst 1)] [(2, VName 1)] []).
+    split; [reflexivity|]. split; [vm_compute; discriminate|]. split; [reflexivity|exists 2, 1; reflexivity].
+  - exists (mkU [] false [(1, VConst 1)] [(2, VAttr 1)] []).
+    split; [reflexivity|]. split; [vm_compute; discriminate|]. split; [reflexivity|exists 2, 1; reflexivity].
+Qed.
